@@ -289,7 +289,8 @@ Definition filter_scalar (v outer : value) : value :=
 (* ---------- iteration domains ---------- *)
 Definition dom_values (v : value) : list value := match v with VList l => l | other => [other] end.
 Definition range_values (lo hi : Z) : list value :=
-  if lo <=? hi then map (fun i => VNum (lo + Z.of_nat i)) (seq 0 (Z.to_nat (hi - lo + 1)))
+  if 100000 <? Z.abs (hi - lo) then [VPoison]        (* not enumerated by the model: the check skips such cases *)
+  else if lo <=? hi then map (fun i => VNum (lo + Z.of_nat i)) (seq 0 (Z.to_nat (hi - lo + 1)))
   else map (fun i => VNum (lo - Z.of_nat i)) (seq 0 (Z.to_nat (lo - hi + 1))).
 
 (* cartesian product in declaration order, the first variable outermost; a tuple is a context *)
